@@ -24,6 +24,33 @@ Theorem C16_unnest_filtered : forall h dom x id, Nat.eqb id x = false -> forall 
 Proof. intros. apply unnest_filtered; assumption. Qed.
 Print Assumptions C16_unnest_filtered.
 
+(* ANY condition on the parent - any tree of comparisons, memberships, expressions in condition position, and / or / not and
+   nested queries over the parent variable (c1 x c) -: the parents are filtered, every surviving parent is unnested in full, in order *)
+Theorem C16_unnest_where : forall h dom x id t, Nat.eqb id x = false -> t1 x t = true -> mentions t = true -> forall c, c1 x c = true ->
+  run_query h dom [TVar x; TFlat id t] (Some c)
+  = flat_map (fun v => if isat h dom c (ev x v) then map (fun e => [v; e]) (inner h x t v) else []) (dom x).
+Proof. intros. apply unnest_where; assumption. Qed.
+Print Assumptions C16_unnest_where.
+
+(* ... and a condition on the parent AND a condition on the flattened element *)
+Theorem C16_unnest_where_filtered : forall h dom x id t, Nat.eqb id x = false -> t1 x t = true -> mentions t = true ->
+  forall c o w, c1 x c = true ->
+  run_query h dom [TVar x; TFlat id t] (Some (CAnd c (CCmp o (TFlat id t) (TLit w))))
+  = flat_map (fun v => if isat h dom c (ev x v) then map (fun e => [v; e]) (filter (fun e => apply_op o e w) (inner h x t v)) else [])
+             (dom x).
+Proof. intros. apply unnest_where_filtered; assumption. Qed.
+Print Assumptions C16_unnest_where_filtered.
+
+Example C16_where_nonvacuous :
+  let h := [[VTup [AInt 1; AInt 2]; VInt 0]; [VTup []; VInt 1]; [VTup [AInt 2; AInt 2; AInt 0]; VInt 1]; [VInt 7; VInt 0]] in
+  let dom := fun k : key => if Nat.eqb k 1 then [VObj 0; VObj 1; VObj 2; VObj 3] else [] in
+  let t := TMap (MField 0) (TVar 1) in
+  let c := CElseIf (CCmp Eq (TMap (MField 1) (TVar 1)) (TLit (VInt 1))) (CCmp Eq (TMap (MField 0) (TVar 1)) (TLit (VInt 7))) in
+  c1 1 c = true /\
+  run_query h dom [TVar 1; TFlat 5 t] (Some c) = [[VObj 2; VInt 2]; [VObj 2; VInt 2]; [VObj 2; VInt 0]; [VObj 3; VInt 7]] /\
+  run_query h dom [TVar 1; TFlat 5 t] (Some (CAnd c (CCmp Ge (TFlat 5 t) (TLit (VInt 2))))) = [[VObj 2; VInt 2]; [VObj 2; VInt 2]; [VObj 3; VInt 7]].
+Proof. vm_compute. repeat split. Qed.
+
 Example C16_nonvacuous :
   let h := [[VTup [AInt 1; AInt 2]]; [VTup []]; [VTup [AInt 2; AInt 2; AInt 0]]; [VInt 7]] in
   let dom := fun k : key => if Nat.eqb k 1 then [VObj 0; VObj 1; VObj 2; VObj 3] else [] in
